@@ -22,7 +22,7 @@ TECHNIQUE = 'reference-model monitor (independent DAQmx encoder + byte-level ora
 RULE = ('random DAQmx files from vlib.daqmx.gen_daqmx; non-trivial = >=2 scalers in the file and >=1 value; distinct = '
         '(digital, widths, buffer lengths, per-channel (raw, scaler types/buffers/offsets), per-segment (endian, nchunks, metadata kind))')
 ASSUMPTIONS = ['an acquisition buffer no scaler refers to has zero rows', 'scaled chunk streams are compared with slices of the eager scaled result']
-REQUIRED = ['scalers_decoded_memmap', 'files_with_channel_switched_off', 'scalers_decoded', 'windows_compared', 'chunk_streams_compared', 'cuts_checked', 'contract:receiver.append_scaler_data']
+REQUIRED = ['chunk_streams_collected_first', 'chunk_streams_read_in_loop', 'scalers_decoded_memmap', 'files_with_channel_switched_off', 'scalers_decoded', 'windows_compared', 'chunk_streams_compared', 'cuts_checked', 'contract:receiver.append_scaler_data']
 N = {'quick': 1500, 'thorough': 100000}
 
 
@@ -168,7 +168,10 @@ def run_case(case, ctx):
                 if ch['name'] in eager_scaled:
                     E = eager_scaled[ch['name']]
                     parts, off_ok, run = [], True, 0
-                    for chunk in c.data_chunks():
+                    # every other file: the chunk objects are collected first and only read once the stream has ended
+                    stream_ = list(c.data_chunks()) if case['s'] % 2 else c.data_chunks()
+                    ctx.count('chunk_streams_collected_first' if case['s'] % 2 else 'chunk_streams_read_in_loop')
+                    for chunk in stream_:
                         if chunk.offset != run:
                             off_ok = False
                         d = chunk[:]
@@ -183,7 +186,7 @@ def run_case(case, ctx):
                             ctx.violation('lazy-scaled-slice', {'chan': ch, 'slice': (a, b), 'file': f.describe()})
             # file-level stream
             acc = {}
-            for chunk in lf.data_chunks():
+            for chunk in (list(lf.data_chunks()) if case['s'] % 2 else lf.data_chunks()):
                 for ch in f.chans:
                     if ch['name'] in eager_scaled:
                         cc = chunk['G'][ch['name']]
